@@ -138,6 +138,17 @@ func c17Exec(op string) string {
 	if !deepEq(before, m) {
 		notes = append(notes, "a read-only operation modified its receiver")
 	}
+	if len(op)%4 == 0 {
+		// the same with some containers of other Go types (mxj.Map, a YAML decoder's
+		// map[interface{}]interface{}, map[string]string, []string): whatever the operations make of
+		// them - an error included - they do not write into the receiver
+		tm := retype(m, hashStr(op), "MYSL", 0).(map[string]interface{})
+		tb := deepCopy(tm)
+		readOnlyBattery(tm, path, key, subs...)
+		if !deepEq(tb, tm) {
+			notes = append(notes, "a read-only operation modified its receiver (a Map holding containers of other Go types)")
+		}
+	}
 	other := deepCopy(m).(map[string]interface{})
 	other["zz"] = "other"
 	for k, v := range other {
